@@ -864,6 +864,11 @@ class ConstructedPayloadDecoderBase(AbstractConstructedPayloadDecoder):
 
                                 asn1Object.setComponentByPosition(idx, component)
 
+                else:
+                    inconsistency = asn1Object.isInconsistent
+                    if inconsistency:
+                        raise inconsistency
+
             else:
                 inconsistency = asn1Object.isInconsistent
                 if inconsistency:
